@@ -426,6 +426,9 @@ pub mod pipeline {
         st!(v, "selection::DERand(1)", selection::de::DERand::new(1).ok());
         st!(v, "selection::DEBest(1)", selection::de::DEBest::new(1).ok());
         st!(v, "selection::DECurrentToBest(1)", selection::de::DECurrentToBest::new(1).ok());
+        st!(v, "selection::DERand(2)", selection::de::DERand::new(2).ok());
+        st!(v, "selection::DEBest(2)", selection::de::DEBest::new(2).ok());
+        st!(v, "selection::DECurrentToBest(2)", selection::de::DECurrentToBest::new(2).ok());
         st!(v, "selection::DeterministicFitnessProportional(1,2)", Some(selection::iwo::DeterministicFitnessProportional::new(1, 2)));
         for (pc, both) in [(0.5, false), (0.5, true), (1.0, false), (1.0, true)] {
             let n: &'static str = Box::leak(format!("NPointCrossover(1,{},{})", pc, both).into_boxed_str());
@@ -438,6 +441,7 @@ pub mod pipeline {
         st!(v, "DEBinomialCrossover(0.5)", Some(recombination::de::DEBinomialCrossover::new(0.5)));
         st!(v, "DEExponentialCrossover(0.5)", Some(recombination::de::DEExponentialCrossover::new(0.5)));
         st!(v, "DEMutation(1,0.5)", mutation::de::DEMutation::new(1, 0.5).ok());
+        st!(v, "DEMutation(2,0.5)", mutation::de::DEMutation::new(2, 0.5).ok());
         st!(v, "NormalMutation(0.3,0.5)", Some(mutation::NormalMutation::new(0.3, 0.5)));
         st!(v, "NormalMutation(0.3,0)", Some(mutation::NormalMutation::new(0.3, 0.0)));
         st!(v, "UniformMutation(0.5,0.5)", Some(mutation::UniformMutation::new(0.5, 0.5)));
@@ -476,6 +480,7 @@ pub mod pipeline {
             ("top-mixed", vec![vec![(0, true), (1, true), (2, true)], vec![(3, true), (6, false), (7, true)]]),
             ("top-unevaluated", vec![vec![(0, true), (1, true), (2, true)], vec![(3, false), (4, false), (1, false)]]),
             ("top-has-duplicates", vec![vec![(0, true), (1, true), (2, true)], vec![(0, true), (0, false), (2, true)]]),
+            ("six-with-duplicates", vec![vec![(0, true), (0, true), (1, true), (2, true), (0, true), (3, true)]]),
             ("top-has-signed-zero-twins", vec![vec![(0, true), (8, true), (9, true)], vec![(8, false), (9, false), (8, true), (9, false)]]),
         ]
     }
@@ -564,7 +569,7 @@ pub mod pipeline {
         let thorough = rep.tier == Tier::Thorough;
         let stgs = stages();
         let names: Vec<&'static str> = stgs.iter().map(|s| s.0).collect();
-        rep.alpha(&format!("component pipelines: every ordered pair of {} stages (selections, recombinations with insert_single / insert_both and pc 0.5 / 1, mutations, boundary repairs, replacements, stack utilities, evaluation) on 6 prepared stacks (evaluated, mixed, unevaluated, duplicates, solutions that differ only in the sign of a zero), followed by an evaluation step with the Sequential or the Parallel evaluator; generator words of the first 2 (quick) / 3 (thorough) draws from a menu of 4", names.len()));
+        rep.alpha(&format!("component pipelines: every ordered pair of {} stages (selections, recombinations with insert_single / insert_both and pc 0.5 / 1, mutations, boundary repairs, replacements, stack utilities, evaluation) on 7 prepared stacks (evaluated, mixed, unevaluated, duplicates, six individuals with duplicates for the DE operators with two difference vectors, solutions that differ only in the sign of a zero), followed by an evaluation step with the Sequential or the Parallel evaluator; generator words of the first 2 (quick) / 3 (thorough) draws from a menu of 4", names.len()));
         let depth = if thorough { 3 } else { 2 };
         let seed = rep.seed;
         let mut part = Part::new("components.pipelines");
